@@ -289,7 +289,8 @@ func runWmWaiters(c *Ctx, r *RuleRun) {
 	p := c.P
 	type closeLoop struct {
 		call   *ssa.Call
-		header *ssa.If
+		header ssa.Instruction // the test of the loop that closes the channels, or the call of a helper that closes them all
+		src    ssa.Value       // where the closed channel(s) come from
 	}
 	n := 0
 	// the consumer and the helpers of its package it reaches
@@ -310,7 +311,14 @@ func runWmWaiters(c *Ctx, r *RuleRun) {
 				return
 			}
 			bi, ok := cl.Call.Value.(*ssa.Builtin)
-			if !ok || bi.Name() != "close" || !inLoop(cl.Block()) {
+			if !ok {
+				// a closure/helper that closes every channel of the slice it is handed: wake(cs...) stands for the loop
+				if src, all, isClose := chanCloseOf(p, cl); isClose && all {
+					loops = append(loops, closeLoop{cl, cl, src})
+				}
+				return
+			}
+			if bi.Name() != "close" || !inLoop(cl.Block()) {
 				return
 			}
 			// innermost loop header: nearest dominator that ends in an If, lies on a cycle with the close and has an exit
@@ -329,7 +337,7 @@ func runWmWaiters(c *Ctx, r *RuleRun) {
 					}
 				}
 				if natural {
-					loops = append(loops, closeLoop{cl, iff})
+					loops = append(loops, closeLoop{cl, iff, cl.Call.Args[0]})
 					break
 				}
 			}
@@ -357,9 +365,9 @@ func runWmWaiters(c *Ctx, r *RuleRun) {
 				}
 				n++
 				key := x.Call.Args[1]
-				var headers []*ssa.If
+				var headers []ssa.Instruction
 				for _, l := range loops {
-					if sameEntry(l.call.Call.Args[0], key) {
+					if sameEntry(l.src, key) {
 						headers = append(headers, l.header)
 					}
 				}
@@ -367,7 +375,7 @@ func runWmWaiters(c *Ctx, r *RuleRun) {
 				if ok2 {
 					q := PathQuery{P: p, Fn: f, Target: func(i ssa.Instruction) bool { return i == ssa.Instruction(x) }, Avoid: func(i ssa.Instruction) bool {
 						for _, h := range headers {
-							if i == ssa.Instruction(h) {
+							if i == h {
 								return true
 							}
 						}
@@ -1129,20 +1137,21 @@ func runSkipMatch(c *Ctx, r *RuleRun) {
 			continue
 		}
 		n := 0
-		eachInstr(f, func(ins ssa.Instruction) {
-			ret, ok := ins.(*ssa.Return)
-			if !ok || len(ret.Results) == 0 {
-				return
+		// (way by way: a result variable or named result gives one return of phis, see retcases.go)
+		for _, rc := range returnCases(f) {
+			ret := rc.Ret
+			if len(rc.Vals) == 0 {
+				continue
 			}
-			last := retOperand(ret, len(ret.Results)-1)
+			last := rc.Vals[len(rc.Vals)-1]
 			if !isConstBool(last, true) {
-				return
+				continue
 			}
 			n++
-			ok2 := hasFact(ret, func(cm Cmp) bool { return cmpKeysFact(p, cm, key, "==") })
+			ok2 := caseHasFact(rc, func(cm Cmp) bool { return cmpKeysFact(p, cm, key, "==") })
 			r.Check(ok2, fn, "acts on the exact key only", p.Pos(instrPos(ret)), "dominated by CompareKeys(elem.Key, key) == 0",
 				"a found/removed answer is given without the exact-key test CompareKeys(elem.Key, key) == 0 (e.g. a same-user-key test): another version of the key is returned or removed")
-		})
+		}
 		if n == 0 {
 			r.Undecided(fn, "acts on the exact key only", "", "no (…, true) return found")
 		}
